@@ -59,10 +59,12 @@ const (
 	opJoin     //
 	opYield    // explicit yield (spin loops)
 	opData     // data choice of the running thread (which pooled value a Pool.Get returns)
+	opAwait    // blocked until a condition holds (context cancellation: AwaitDone)
+	opCancel   // call of a context.CancelFunc
 )
 
 var opNames = [...]string{"start", "exit", "R", "W", "atomic", "lock", "lock-announce", "rlock", "unlock", "runlock", "trylock",
-	"once", "once-done", "wg-add", "wg-wait", "spawn", "join", "yield", "data-choice"}
+	"once", "once-done", "wg-add", "wg-wait", "spawn", "join", "yield", "data-choice", "await-done", "cancel"}
 
 // op is the pending operation of a parked thread.
 type op struct {
@@ -71,6 +73,7 @@ type op struct {
 	obj   uintptr   // identity of the object operated on (0 = none: independent of everything)
 	st    *objState // state machine of the sync object, when there is one
 	site  string
+	cond  func() bool // opAwait: enabled when it returns true
 }
 
 func (o *op) enabled() bool {
@@ -85,6 +88,8 @@ func (o *op) enabled() bool {
 		return o.st.n <= 0
 	case opJoin:
 		return o.st.th.finished
+	case opAwait:
+		return o.cond()
 	}
 	return true
 }
@@ -110,6 +115,12 @@ type thread struct {
 	completed bool // returned normally or panicked (its result is an observable)
 	vc        vclock
 	selfObj   objState // join target
+	// daemon: started by vrt.Go during the single-threaded setup phase (a background goroutine of
+	// the instance under test). It has no observable, and an execution whose scenario threads
+	// have all finished ends normally when only blocked daemons are left.
+	daemon bool
+	// blockedAt names the operation the thread was parked at when the execution ended blocked
+	blockedAt string
 }
 
 // pointRec is one choice point of an execution: a scheduling point (which enabled thread runs
@@ -192,6 +203,14 @@ type Exec struct {
 	ticks int64
 
 	orderBuf []int8
+
+	// goroutines started by vrt.Go during setup: they become daemon threads when the run starts
+	pendingSpawn []func()
+	// guide, when set (projection replay of the differential oracle of Env scenarios), lists the
+	// thread to run at each scheduling point; an entry that cannot be followed (thread finished
+	// or disabled) is skipped and the canonical default applies
+	guide []int8
+	gpos  int
 }
 
 // traceEv is one executed operation on an object (input of the trace fingerprint).
@@ -329,12 +348,15 @@ func (x *Exec) schedule(from *thread) {
 	}
 	var p pointRec
 	p.running = -1
-	allDone := true
+	allDone, mainsDone := true, true
 	for _, th := range x.threads {
 		if th.finished {
 			continue
 		}
 		allDone = false
+		if !th.daemon {
+			mainsDone = false
+		}
 		if th.pending.enabled() {
 			p.enabled |= 1 << uint(th.id)
 		}
@@ -352,9 +374,17 @@ func (x *Exec) schedule(from *thread) {
 			x.mainWake <- struct{}{}
 			return
 		}
+		if mainsDone {
+			// every scenario thread has finished; what is left are background goroutines of the
+			// instance parked at a blocking operation (as they would be in a live server): the
+			// execution is complete, the daemons are torn down
+			x.abortFrom(from, "", "")
+			return
+		}
 		var sb strings.Builder
 		for _, th := range x.threads {
 			if !th.finished {
+				th.blockedAt = opNames[th.pending.kind]
 				fmt.Fprintf(&sb, " thread %d blocked at %s %s;", th.id, opNames[th.pending.kind], th.pending.site)
 			}
 		}
@@ -375,6 +405,21 @@ func (x *Exec) schedule(from *thread) {
 		choice = int(pe.choice)
 		if x.useSleep && idx == len(x.prefix)-1 {
 			x.curSleep = x.branchSleep
+		}
+	} else if x.guide != nil {
+		for x.gpos < len(x.guide) {
+			g := x.guide[x.gpos]
+			at := -1
+			for i, id := range order {
+				if id == g {
+					at = i
+				}
+			}
+			x.gpos++
+			if at >= 0 {
+				choice = at
+				break
+			}
 		}
 	} else if x.useSleep && !x.sleepBlocked {
 		// default choice: first enabled thread that is not asleep
@@ -503,6 +548,14 @@ func (x *Exec) runThreads(fns []func() any) {
 	for _, f := range fns {
 		x.newThread(f, nil)
 	}
+	for _, f := range x.pendingSpawn {
+		f := f
+		x.newThread(func() any { f(); return nil }, nil).daemon = true
+	}
+	x.pendingSpawn = nil
+	for _, th := range x.threads {
+		th.vc = th.vc.grow(len(x.threads))
+	}
 	x.running = nil
 	x.schedule(nil)
 	x.waitMain()
@@ -569,6 +622,12 @@ func Yield() {
 // otherwise. The instrumenter rewrites `go f(x)` into `vrt.Go(func() { f(x) })`.
 func Go(f func()) {
 	x, t := current()
+	if x != nil && t == nil && x.mode == modeSetup {
+		// a background goroutine started while the instance is built (single-threaded setup):
+		// it becomes a daemon thread of the execution when the scenario threads start
+		x.pendingSpawn = append(x.pendingSpawn, f)
+		return
+	}
 	if t == nil {
 		go f()
 		return
